@@ -1277,6 +1277,7 @@ func (r *chainRun) checkLedger(n *Node, v *nodeView) *Violation {
 	for _, txid := range r.u.Txs {
 		var mainBlk *MBlock
 		var anyBlk *MBlock
+		mainSet := map[string]bool{} // a (defective) chain may carry the transaction in several of its blocks
 		for _, id := range v.stored {
 			mb := r.cm.Blocks[id]
 			for _, t := range mb.Block.Transactions {
@@ -1284,6 +1285,7 @@ func (r *chainRun) checkLedger(n *Node, v *nodeView) *Violation {
 					anyBlk = mb
 					if _, ok := onMain[id]; ok {
 						mainBlk = mb
+						mainSet[id] = true
 					}
 				}
 			}
@@ -1306,10 +1308,10 @@ func (r *chainRun) checkLedger(n *Node, v *nodeView) *Violation {
 		}
 		qb, err := n.L.QueryBlockByTxid(txid)
 		if mainBlk != nil {
-			if !bytes.Equal(t.Blockid, mainBlk.ID) {
+			if !mainSet[string(t.Blockid)] {
 				return r.viol("ledger-tx-block", "%s: transaction %s maps to block %s, main chain has it in %s", n.Name, hx(txid), hx(t.Blockid), hx(mainBlk.ID))
 			}
-			if err != nil || !bytes.Equal(qb.Blockid, mainBlk.ID) {
+			if err != nil || !mainSet[string(qb.Blockid)] {
 				return r.viol("ledger-tx-block", "%s: QueryBlockByTxid(%s) err=%v", n.Name, hx(txid), err)
 			}
 		} else if err == nil && !v.storedSet[string(qb.Blockid)] {
